@@ -105,6 +105,124 @@ fn cfg_dump(src: &str) -> String {
     format!("[{}]", blocks.join(", "))
 }
 
+fn vkey(v: &program_structure::ir::VariableName) -> String {
+    let base = match v.suffix() {
+        Some(sf) => format!("{}.{}", v.name(), sf),
+        None => v.name().clone(),
+    };
+    match v.version() {
+        Some(n) => format!("[\"{}\", {}]", base, n),
+        None => format!("[\"{}\", null]", base),
+    }
+}
+
+fn expr_reads(e: &program_structure::ir::Expression, out: &mut Vec<String>) {
+    use program_structure::ir::{AccessType, Expression::*};
+    match e {
+        Variable { name, .. } => out.push(vkey(name)),
+        Number(..) => {}
+        InfixOp { lhe, rhe, .. } => {
+            expr_reads(lhe, out);
+            expr_reads(rhe, out);
+        }
+        PrefixOp { rhe, .. } => expr_reads(rhe, out),
+        SwitchOp { cond, if_true, if_false, .. } => {
+            expr_reads(cond, out);
+            expr_reads(if_true, out);
+            expr_reads(if_false, out);
+        }
+        Call { args, .. } => args.iter().for_each(|a| expr_reads(a, out)),
+        InlineArray { values, .. } => values.iter().for_each(|a| expr_reads(a, out)),
+        Access { var, access, .. } => {
+            for a in access {
+                if let AccessType::ArrayAccess(i) = a {
+                    expr_reads(i, out);
+                }
+            }
+            out.push(vkey(var));
+        }
+        Update { var, access, rhe, .. } => {
+            expr_reads(rhe, out);
+            for a in access {
+                if let AccessType::ArrayAccess(i) = a {
+                    expr_reads(i, out);
+                }
+            }
+            out.push(vkey(var));
+        }
+        Phi { args, .. } => args.iter().for_each(|a| out.push(vkey(a))),
+    }
+}
+
+/// ssadump <hex source of one definition> -> JSON list of blocks after SSA conversion (the view audited by specs/C14ssa.py)
+fn ssa_dump(src: &str) -> String {
+    use program_structure::ir::{Expression, Statement};
+    let def = match parse_definition(src) {
+        Some(d) => d,
+        None => return "PARSEERR".to_string(),
+    };
+    let mut reports = ReportCollection::new();
+    let cfg = match def.into_cfg(&Curve::Bn254, &mut reports) {
+        Ok(cfg) => cfg,
+        Err(e) => return format!("LIFTERR {}", e),
+    };
+    let cfg = match cfg.into_ssa() {
+        Ok(cfg) => cfg,
+        Err(_) => return "SSAERR".to_string(),
+    };
+    let mut blocks = Vec::new();
+    for b in cfg.iter() {
+        let mut preds: Vec<usize> = b.predecessors().iter().cloned().collect();
+        preds.sort();
+        let mut succs: Vec<usize> = b.successors().iter().cloned().collect();
+        succs.sort();
+        let mut stmts = Vec::new();
+        for s in b.iter() {
+            let id = s.meta().start();
+            let mut reads = Vec::new();
+            match s {
+                Statement::Declaration { names, .. } => {
+                    let ns: Vec<String> = names.iter().map(vkey).collect();
+                    stmts.push(format!("{{\"k\": \"decl\", \"id\": {}, \"names\": [{}], \"reads\": [], \"def\": null}}", id, ns.join(", ")));
+                }
+                Statement::Substitution { var, rhe, .. } => match rhe {
+                    Expression::Phi { .. } => {
+                        expr_reads(rhe, &mut reads);
+                        stmts.push(format!("{{\"k\": \"phi\", \"id\": {}, \"def\": {}, \"args\": [{}], \"reads\": []}}", id, vkey(var), reads.join(", ")));
+                    }
+                    _ => {
+                        expr_reads(rhe, &mut reads);
+                        let upd = match rhe {
+                            Expression::Update { var, .. } => vkey(var),
+                            _ => "null".to_string(),
+                        };
+                        stmts.push(format!("{{\"k\": \"subst\", \"id\": {}, \"def\": {}, \"reads\": [{}], \"updvar\": {}}}", id, vkey(var), reads.join(", "), upd));
+                    }
+                },
+                Statement::IfThenElse { cond, true_index, false_index, .. } => {
+                    expr_reads(cond, &mut reads);
+                    let f = match false_index {
+                        Some(f) => f.to_string(),
+                        None => "null".to_string(),
+                    };
+                    stmts.push(format!("{{\"k\": \"branch\", \"id\": {}, \"def\": null, \"reads\": [{}], \"t\": {}, \"f\": {}}}", id, reads.join(", "), true_index, f));
+                }
+                Statement::Return { value, .. } => {
+                    expr_reads(value, &mut reads);
+                    stmts.push(format!("{{\"k\": \"use\", \"id\": {}, \"def\": null, \"reads\": [{}]}}", id, reads.join(", ")));
+                }
+                Statement::Assert { arg, .. } => {
+                    expr_reads(arg, &mut reads);
+                    stmts.push(format!("{{\"k\": \"use\", \"id\": {}, \"def\": null, \"reads\": [{}]}}", id, reads.join(", ")));
+                }
+                _ => stmts.push(format!("{{\"k\": \"other\", \"id\": {}, \"def\": null, \"reads\": []}}", id)),
+            }
+        }
+        blocks.push(format!("{{\"index\": {}, \"preds\": {:?}, \"succs\": {:?}, \"stmts\": [{}]}}", b.index(), preds, succs, stmts.join(", ")));
+    }
+    format!("[{}]", blocks.join(", "))
+}
+
 struct NoContext;
 impl AnalysisContext for NoContext {
     fn is_function(&self, _: &str) -> bool {
@@ -174,6 +292,10 @@ fn main() {
         }
         let r = panic::catch_unwind(|| match w[0] {
             "analyzefile" => analyze_file(w[1], &w[2..]),
+            "ssadump" => match String::from_utf8(unhex(w.get(1).unwrap_or(&""))) {
+                Ok(s) => ssa_dump(&s),
+                Err(_) => "BADUTF8".to_string(),
+            },
             "cfgdump" => match String::from_utf8(unhex(w.get(1).unwrap_or(&""))) {
                 Ok(s) => cfg_dump(&s),
                 Err(_) => "BADUTF8".to_string(),
